@@ -15,6 +15,7 @@ func init() { Registry["C20"] = c20 }
 const nodesloPkg = "pkg/slo-controller/nodeslo"
 
 func c20(c *Ctx) {
+	c20selectorError(c)
 	r := c.R
 	r.Decides("the five section merge functions agree: on a JSON parse error they return the old (previously effective) section, on an absent key the default (or empty) section, every MergeCfg call has the layered base first and the parsed overlay second, and a node entry that sets nothing of the section inherits the merged cluster strategy")
 	r.Decides("syncConfig stores each merge result in its own section of the new config unconditionally (so the 'old on error' value survives) and changes the cache only through updateCacheIfChanged")
